@@ -26,6 +26,16 @@ Theorem C15_post_gate_shape : forall r,
 Proof. exact post_gate_shape. Qed.
 Print Assumptions C15_post_gate_shape.
 
+(* T1, browser form: [cors_safelisted_ctype] transcribes "parse a MIME type" (MIME Sniffing
+   standard) and Fetch's list of CORS-safelisted Content-Type essences.  A POST carrying a
+   Content-Type that a browser may send cross-origin WITHOUT a preflight is never executed
+   while protection is on. *)
+Theorem C15_post_gate_not_safelisted : forall r v,
+  r_kind r = Post -> r_csrf r = true -> reaches_core (handle r) = true ->
+  r_ctype r = Some v -> cors_safelisted_ctype v = false.
+Proof. exact post_gate_not_safelisted. Qed.
+Print Assumptions C15_post_gate_not_safelisted.
+
 (* T2 preflight_sound: CORS is granted (or any non-refusal answer given) only to a present,
    non-empty Origin whose netloc is empty, equals Host after lower-casing, or is allow-listed *)
 Theorem C15_preflight_sound : forall r,
